@@ -1058,3 +1058,10 @@ V("init-filters-constraints", "break", ["C01", "C02", "C07", "C13"], PB, "      
   "init() rewrites the list of constraints through a filter", "Problem.init", expect_rule="R-POSTED-KEPT")
 V("add-propagators-one-by-one", "neutral", ["C01", "C02", "C07", "C13", "C15"], PB, "        self.propagators.extend(propagators)\n",
   "        for propagator in propagators:\n            self.propagators.append(propagator)\n", "extend written as a loop of appends")
+# ---- R-SWALLOWED-RAISE division (round 6, C10-x1)
+V("shaving-yield-cutoff-unguarded", "break", ["C10", "C15"], SH, "        statistics[STATS_IDX_ALG_SHAVING_NB] += 1\n",
+  "        if statistics[STATS_IDX_ALG_SHAVING_CHANGE_NB] / statistics[STATS_IDX_ALG_SHAVING_NO_CHANGE_NB] < 0.02:\n            break\n        statistics[STATS_IDX_ALG_SHAVING_NB] += 1\n",
+  "adaptive cut-off dividing by a counter that is 0 while every probe has succeeded: ZeroDivisionError behind the function pointer", "shaving_consistency_algorithm", expect_rule="R-SWALLOWED-RAISE")
+V("shaving-yield-cutoff-guarded", "neutral", ["C15"], SH, "        statistics[STATS_IDX_ALG_SHAVING_NB] += 1\n",
+  "        failed_nb = statistics[STATS_IDX_ALG_SHAVING_NO_CHANGE_NB]\n        if failed_nb > 0 and statistics[STATS_IDX_ALG_SHAVING_CHANGE_NB] / failed_nb < 0.02:\n            break\n        statistics[STATS_IDX_ALG_SHAVING_NB] += 1\n",
+  "the same cut-off with the divisor tested first")
